@@ -187,6 +187,13 @@ func Effect(name string, args ...interface{}) { logLine("effect %s", name) }
 func Unwind(n int)                            {}
 func GoInline(on bool)                        {}
 
+// JSONArbitrary(false): payloads that were not produced by json.Marshal on this run decode as error or
+// null only (the "arbitrary content" alternative of the decoder model is switched off).
+func JSONArbitrary(on bool) {}
+
+// Thorough reports whether the check runs in the thorough tier (natively: $VERIF_TIER).
+func Thorough() bool { return os.Getenv("VERIF_TIER") == "thorough" }
+
 // Symbolic reports whether the harness runs under the symbolic executor.
 func Symbolic() bool { return false }
 
